@@ -20,14 +20,55 @@ import (
 
 type aRow struct {
 	cells   []int64
+	null    []bool // per cell: NULL (nil slice: no NULLs)
 	present bool
+}
+
+func (r *aRow) isNull(k int) bool { return k < len(r.null) && r.null[k] }
+
+// get: the cell as a driver value (nil for NULL)
+func (r *aRow) get(k int) interface{} {
+	if r.isNull(k) {
+		return nil
+	}
+	return r.cells[k]
+}
+
+func (r *aRow) set(k int, v interface{}) {
+	if r.null == nil {
+		r.null = make([]bool, len(r.cells))
+	}
+	if v == nil {
+		r.cells[k], r.null[k] = 0, true
+		return
+	}
+	r.cells[k], r.null[k] = aInt(v), false
+}
+
+func (r aRow) clone() aRow {
+	c := aRow{cells: append([]int64(nil), r.cells...), present: r.present}
+	if r.null != nil {
+		c.null = append([]bool(nil), r.null...)
+	}
+	return c
+}
+
+// aSameRow: same cells, NULL only equal to NULL
+func aSameRow(a, b aRow) bool {
+	for k := range a.cells {
+		if a.isNull(k) != b.isNull(k) || (!a.isNull(k) && a.cells[k] != b.cells[k]) {
+			return false
+		}
+	}
+	return true
 }
 
 type aDB struct {
 	table    string
 	cols     []string
 	pk       []int
-	auto     int // index of the auto-increment column, -1 if none
+	nullable []bool // per column (nil: every column NOT NULL)
+	auto     int    // index of the auto-increment column, -1 if none
 	rows     []aRow
 	nextAuto int64
 
@@ -39,6 +80,8 @@ type aDB struct {
 	lastKind      string
 	stmts         int
 	failAt        int
+	execs         int // business statements (Exec calls that are not savepoints) so far
+	failExec      int // the k-th of them (1-based) is rejected by the database; 0: none
 
 	setCols            map[int]bool // columns assigned by the UPDATE statement(s) of the last Exec
 	savepoint          []aRow
@@ -57,6 +100,8 @@ func (d *aDB) col(name string) int {
 	}
 	return -1
 }
+
+func (d *aDB) isNullable(k int) bool { return k < len(d.nullable) && d.nullable[k] }
 
 func (d *aDB) isPK(k int) bool {
 	for _, p := range d.pk {
@@ -124,7 +169,7 @@ func (e *aEval) eval(n ast.ExprNode) interface{} {
 			e.bad = "unknown column " + x.Name.Name.O
 			return int64(0)
 		}
-		return e.row.cells[c]
+		return e.row.get(c)
 	case *test_driver.ParamMarkerExpr:
 		return e.arg(x.Order)
 	case *test_driver.ValueExpr:
@@ -146,6 +191,9 @@ func (e *aEval) eval(n ast.ExprNode) interface{} {
 		return vs
 	case *ast.UnaryOperationExpr:
 		v := e.eval(x.V)
+		if v == nil {
+			return nil // NULL in, NULL out
+		}
 		switch x.Op {
 		case opcode.Not, opcode.Not2:
 			return !aBool(v)
@@ -159,13 +207,28 @@ func (e *aEval) eval(n ast.ExprNode) interface{} {
 	case *ast.BinaryOperationExpr:
 		switch x.Op {
 		case opcode.LogicAnd:
-			return aBool(e.eval(x.L)) && aBool(e.eval(x.R))
+			// three-valued: FALSE wins over NULL, NULL over TRUE
+			l, r := e.eval(x.L), e.eval(x.R)
+			if (l != nil && !aBool(l)) || (r != nil && !aBool(r)) {
+				return false
+			}
+			if l == nil || r == nil {
+				return nil
+			}
+			return true
 		case opcode.LogicOr:
-			return aBool(e.eval(x.L)) || aBool(e.eval(x.R))
+			l, r := e.eval(x.L), e.eval(x.R)
+			if (l != nil && aBool(l)) || (r != nil && aBool(r)) {
+				return true
+			}
+			if l == nil || r == nil {
+				return nil
+			}
+			return false
 		}
 		l, r := e.eval(x.L), e.eval(x.R)
 		if l == nil || r == nil {
-			return false
+			return nil
 		}
 		a, b := aInt(l), aInt(r)
 		switch x.Op {
@@ -191,17 +254,28 @@ func (e *aEval) eval(n ast.ExprNode) interface{} {
 		e.bad = "unsupported binary operator"
 		return int64(0)
 	case *ast.BetweenExpr:
-		v, lo, hi := aInt(e.eval(x.Expr)), aInt(e.eval(x.Left)), aInt(e.eval(x.Right))
+		ev, el, eh := e.eval(x.Expr), e.eval(x.Left), e.eval(x.Right)
+		if ev == nil || el == nil || eh == nil {
+			// (one NULL bound can still decide the test in MySQL; the harness passes no NULL bounds)
+			return nil
+		}
+		v, lo, hi := aInt(ev), aInt(el), aInt(eh)
 		in := v >= lo && v <= hi
 		return in != x.Not
 	case *ast.PatternInExpr:
 		v := e.eval(x.Expr)
-		found := false
+		found, unknown := false, v == nil
 		for _, it := range x.List {
 			w := e.eval(it)
+			if w == nil {
+				unknown = true
+			}
 			if aSame(v, w) {
 				found = true
 			}
+		}
+		if !found && unknown {
+			return nil
 		}
 		return found != x.Not
 	case *ast.IsNullExpr:
@@ -331,6 +405,10 @@ func (c *aConn) ExecContext(ctx context.Context, q string, args []driver.NamedVa
 	if d.savepointStmt(q) {
 		return aResult{}, nil
 	}
+	d.execs++
+	if d.execs == d.failExec {
+		return nil, errors.New("Error 1205: Lock wait timeout exceeded; try restarting transaction")
+	}
 	// a batch of statements ("a; b"): each is applied in turn; the ground truth of the
 	// batch is, per row, its content before the first and after the last change
 	if sts, _, err := parser.New().Parse(q, "", ""); err == nil && len(sts) > 1 {
@@ -400,7 +478,7 @@ func (c *aConn) execOne(st ast.StmtNode, q string, args []driver.NamedValue) (dr
 		n := int64(0)
 		for _, i := range d.matching(x.Where, x.Order, x.Limit, args) {
 			r := &d.rows[i]
-			before := aRow{cells: append([]int64(nil), r.cells...), present: true}
+			before := r.clone()
 			e := &aEval{d: d, row: &before, args: args}
 			for _, as := range x.List {
 				cidx := d.col(as.Column.Name.O)
@@ -409,13 +487,17 @@ func (c *aConn) execOne(st ast.StmtNode, q string, args []driver.NamedValue) (dr
 					return nil, errors.New(d.bad)
 				}
 				d.setCols[cidx] = true
-				r.cells[cidx] = aInt(e.eval(as.Expr))
+				nv := e.eval(as.Expr)
+				if nv == nil && !d.isNullable(cidx) {
+					return nil, errors.New("Error 1048: Column cannot be null")
+				}
+				r.set(cidx, nv)
 			}
 			if e.bad != "" {
 				d.bad = e.bad
 			}
 			d.changedBefore = append(d.changedBefore, before)
-			d.changedAfter = append(d.changedAfter, aRow{cells: append([]int64(nil), r.cells...), present: true})
+			d.changedAfter = append(d.changedAfter, r.clone())
 			n++
 		}
 		return aResult{affected: n}, nil
@@ -424,7 +506,7 @@ func (c *aConn) execOne(st ast.StmtNode, q string, args []driver.NamedValue) (dr
 		n := int64(0)
 		for _, i := range d.matching(x.Where, x.Order, x.Limit, args) {
 			r := &d.rows[i]
-			d.changedBefore = append(d.changedBefore, aRow{cells: append([]int64(nil), r.cells...), present: true})
+			d.changedBefore = append(d.changedBefore, r.clone())
 			r.present = false
 			n++
 		}
@@ -447,7 +529,10 @@ func (c *aConn) execOne(st ast.StmtNode, q string, args []driver.NamedValue) (dr
 				d.bad = "column count does not match value count"
 				return nil, errors.New(d.bad)
 			}
-			nr := aRow{cells: make([]int64, len(d.cols)), present: true}
+			nr := aRow{cells: make([]int64, len(d.cols)), null: make([]bool, len(d.cols)), present: true}
+			for k := range d.cols {
+				nr.null[k] = d.isNullable(k) // a column that is not listed takes its default: NULL where allowed
+			}
 			given := make([]bool, len(d.cols))
 			e := &aEval{d: d, args: args}
 			for j, v := range vals {
@@ -460,10 +545,17 @@ func (c *aConn) execOne(st ast.StmtNode, q string, args []driver.NamedValue) (dr
 				}
 				ev := e.eval(v)
 				if ev == nil {
+					if colIdx[j] != d.auto && !d.isNullable(colIdx[j]) {
+						return nil, errors.New("Error 1048: Column cannot be null")
+					}
+					if d.isNullable(colIdx[j]) {
+						nr.set(colIdx[j], nil)
+					}
 					continue
 				}
-				nr.cells[colIdx[j]] = aInt(ev)
+				nr.set(colIdx[j], ev)
 				given[colIdx[j]] = true
+				d.setCols[colIdx[j]] = true
 			}
 			if e.bad != "" {
 				d.bad = e.bad
@@ -496,21 +588,26 @@ func (c *aConn) execOne(st ast.StmtNode, q string, args []driver.NamedValue) (dr
 					return nil, errors.New("Error 1062: Duplicate entry")
 				}
 				r := &d.rows[dup]
-				before := aRow{cells: append([]int64(nil), r.cells...), present: true}
+				before := r.clone()
 				ue := &aEval{d: d, row: &before, args: args}
 				for _, as := range x.OnDuplicate {
-					r.cells[d.col(as.Column.Name.O)] = aInt(ue.eval(as.Expr))
+					cidx := d.col(as.Column.Name.O)
+					nv := ue.eval(as.Expr)
+					if nv == nil && !d.isNullable(cidx) {
+						return nil, errors.New("Error 1048: Column cannot be null")
+					}
+					r.set(cidx, nv)
 				}
 				if ue.bad != "" {
 					d.bad = ue.bad
 				}
 				d.changedBefore = append(d.changedBefore, before)
-				d.changedAfter = append(d.changedAfter, aRow{cells: append([]int64(nil), r.cells...), present: true})
+				d.changedAfter = append(d.changedAfter, r.clone())
 				n += 2
 				continue
 			}
 			d.rows = append(d.rows, nr)
-			d.changedAfter = append(d.changedAfter, aRow{cells: append([]int64(nil), nr.cells...), present: true})
+			d.changedAfter = append(d.changedAfter, nr.clone())
 			n++
 		}
 		return aResult{affected: n, lastID: first}, nil
@@ -592,7 +689,7 @@ func (c *aConn) QueryContext(ctx context.Context, q string, args []driver.NamedV
 		r := &d.rows[i]
 		var vals []driver.Value
 		for _, f := range fields {
-			vals = append(vals, r.cells[f])
+			vals = append(vals, r.get(f))
 		}
 		out.data = append(out.data, vals)
 	}
@@ -607,7 +704,7 @@ func (d *aDB) savepointStmt(q string) bool {
 	if strings.HasPrefix(lq, "savepoint ") {
 		d.savepoint = make([]aRow, len(d.rows))
 		for i, r := range d.rows {
-			d.savepoint[i] = aRow{cells: append([]int64(nil), r.cells...), present: r.present}
+			d.savepoint[i] = r.clone()
 		}
 		d.savepoints++
 		return true
@@ -638,10 +735,15 @@ func (d *aDB) matching(where ast.ExprNode, order *ast.OrderByClause, limit *ast.
 			for _, it := range order.Items {
 				ea := &aEval{d: d, row: &d.rows[a], args: args}
 				eb := &aEval{d: d, row: &d.rows[b], args: args}
-				va, vb := aInt(ea.eval(it.Expr)), aInt(eb.eval(it.Expr))
+				xa, xb := ea.eval(it.Expr), eb.eval(it.Expr)
 				if ea.bad != "" || eb.bad != "" {
 					d.bad = "adb: unsupported ORDER BY item"
 				}
+				if (xa == nil) != (xb == nil) {
+					// NULL sorts before every value (after, in descending order)
+					return (xa == nil) != it.Desc
+				}
+				va, vb := aInt(xa), aInt(xb)
 				if va == vb {
 					continue
 				}
